@@ -138,10 +138,10 @@ OPS = {
     "hazmat.newton_refine_curve": lambda n, p, s: hz_curve.newton_refine(n, p, s),
     "hazmat.locate_point_curve": lambda n, p: hz_curve.locate_point(n, p),
     # ---- triangles
-    "Triangle.evaluate_barycentric": lambda n, a, b, c: tri(n).evaluate_barycentric(a, b, c),
-    "Triangle.evaluate_barycentric_multi": lambda n, p: tri(n).evaluate_barycentric_multi(p),
-    "Triangle.evaluate_cartesian": lambda n, s, t: tri(n).evaluate_cartesian(s, t),
-    "Triangle.evaluate_cartesian_multi": lambda n, p: tri(n).evaluate_cartesian_multi(p),
+    "Triangle.evaluate_barycentric": lambda n, a, b, c, verify=True: tri(n).evaluate_barycentric(a, b, c, verify=verify),
+    "Triangle.evaluate_barycentric_multi": lambda n, p, verify=True: tri(n).evaluate_barycentric_multi(p, verify=verify),
+    "Triangle.evaluate_cartesian": lambda n, s, t, verify=True: tri(n).evaluate_cartesian(s, t, verify=verify),
+    "Triangle.evaluate_cartesian_multi": lambda n, p, verify=True: tri(n).evaluate_cartesian_multi(p, verify=verify),
     "Triangle.edges": lambda n: [e.nodes for e in tri(n).edges],
     "Triangle.subdivide": lambda n: [t.nodes for t in tri(n).subdivide()],
     "Triangle.elevate": lambda n: tri(n).elevate().nodes,
